@@ -190,7 +190,7 @@ fn apply(rng: &mut Rng, kind: &str, t: &mut GTree) {
             let k = if kind == "comment-add" {
                 GTree::leaf(GValue::Comment(rng.pick(&["", "c", " x "]).to_string()))
             } else if rng.chance(1, 2) {
-                GTree::leaf(GValue::Text(rng.pick(&["t", " ", "x y"]).to_string()))
+                GTree::leaf(GValue::Text(rng.pick(&["t", " ", "x y", "", ""]).to_string()))
             } else {
                 GTree::leaf(GValue::Element(*rng.pick(&[2usize, 3, 5])))
             };
